@@ -185,7 +185,7 @@ pub fn gen(tier: &str, seed: u64, out: &mut dyn FnMut(Value)) {
             out(json!({"op": "num_cmp", "a": num_json(a), "b": num_json(b), "tag": "Number ops boundary", "nt": true}));
         }
     }
-    let n = if tier == "thorough" { 400000 } else { 20000 };
+    let n = if tier == "thorough" { 2000000 } else { 80000 };
     for _ in 0..n {
         let a = random_num(&mut rng);
         let b = if rng.chance(1, 4) {
